@@ -8,6 +8,7 @@ import (
 	"fmt"
 	"math/rand"
 	"sort"
+	"strings"
 
 	"verif/harness/gen"
 	"verif/harness/hx"
@@ -206,6 +207,68 @@ func runC13(c *hx.Ctx) {
 			sumDo(c, f, budget, b%6 == 0)
 		}
 		_ = run
+	}
+	// ---- overlapping lookups on ONE client (oracle only: the sequential Coq model has no such path):
+	// lookup 1 is parked at one of its tile reads while lookup 2, for a head on the other side of
+	// a fork (or further along the same log), runs to completion; lookup 1 then finds c.latest
+	// changed underfoot and goes through the retry branch of mergeLatestMem
+	for b := 0; b < c.N(45); b++ {
+		sc := forkBase(r)
+		w := gen.NewSumWorld(sc.Seed, sc.NA, sc.NB, sc.K, -1)
+		k0 := 1
+		if sc.K > 1 {
+			k0 = 1 + r.Intn(sc.K)
+		}
+		first := r.Intn(2)
+		second := 1 - first
+		note := "overlap-fork"
+		if b%3 == 2 { // the same log: honest concurrent growth
+			second, note = first, "overlap-growth"
+		}
+		lim1, lim2 := w.Logs[first].Len(), w.Logs[second].Len()
+		n1, n2 := sizeOn(r, sc, first), sizeOn(r, sc, second)
+		if n1 > lim1 {
+			n1 = lim1
+		}
+		if n2 > lim2 {
+			n2 = lim2
+		}
+		if n1 < k0 {
+			n1 = k0
+		}
+		if n2 < k0 {
+			n2 = k0
+		}
+		// a long-lived client that knows a head on the common prefix
+		p, v := sumLookupOn(r, w, 0, k0)
+		sc.Steps = append(sc.Steps, gen.SumStep{Client: 0, View: gen.HonestView(0, int64(k0)), Path: p, Vers: v})
+		p1, v1 := sumLookupOn(r, w, first, n1)
+		sc.Steps = append(sc.Steps, gen.SumStep{Client: 0, View: gen.HonestView(first, int64(n1)), Path: p1, Vers: v1})
+		var p2, v2 string
+		for try := 0; try < 20; try++ {
+			p2, v2 = sumLookupOn(r, w, second, n2)
+			if p2 != p1 && p2 != p {
+				break
+			}
+		}
+		sc.Steps = append(sc.Steps, gen.SumStep{Client: 0, View: gen.HonestView(second, int64(n2)), Path: p2, Vers: v2})
+		sc.Note = note + " seq"
+		seq := sumDo(c, sc, nil, false)
+		// park lookup 1 at each of its tile operations in turn
+		seen := map[string]bool{}
+		for _, e := range seq.Events {
+			if e.Step != 1 || !(e.Kind == "rr" || e.Kind == "rc") || !strings.Contains(e.Name, "/tile/") || seen[e.Kind+e.Name] {
+				continue
+			}
+			seen[e.Kind+e.Name] = true
+			f := sc.Clone()
+			f.Note = note
+			f.Par = &gen.SumPar{Step: 1, Kind: e.Kind, Path: e.Name}
+			run := sumDo(c, f, nil, false)
+			for _, res := range run.Results[1:] {
+				c.Count("overlap:" + note + ":" + res.Class)
+			}
+		}
 	}
 	// ---- interference: another process rewrites the configuration between ReadConfig and WriteConfig
 	for b := 0; b < c.N(200); b++ {
